@@ -271,8 +271,13 @@ def one_prog(ctx, desc):
     agent.install([build_trigger('tp-x', name + '.py', loc[1] if loc[0] == 'line' else 0, args, watches, [])])
     refs = []
 
+    entered = set()
+
     def probe(ev, frame):
-        if (loc[0] == 'line' and ev.kind == 'line' and ev.line == loc[1]) or (loc[0] == 'fn' and ev.kind == 'call' and ev.func == loc[1]):
+        # a function is entered once per invocation (the 'call' events of generator / coroutine resumptions are not entries)
+        fresh = ev.inv not in entered
+        entered.add(ev.inv)
+        if (loc[0] == 'line' and ev.kind == 'line' and ev.line == loc[1]) or (loc[0] == 'fn' and ev.kind == 'call' and fresh and ev.func == loc[1]):
             refs.append(ref_frame(frame, watches))
     with rig.VirtualClock():
         run = Forwarder({lo.path}, agent.handler, probe).call_thread(lo.ns['main'])
